@@ -11,7 +11,9 @@ import (
 
 type Step struct {
 	Cmd  []Tok
-	Tick int64 // ms to advance the virtual clock before the command
+	Tick int64  // ms to advance the virtual clock before the step
+	Kind string // "" = command; "sample" = one run of the background expiry sampler; "select" = embedded SelectDB
+	Db   int
 }
 
 type Program struct {
@@ -80,19 +82,52 @@ func RunProgram(tr *Trace, run int, p Program, stats *SeqStats) error {
 			srv.Clock.AdvanceMs(s.Tick)
 		}
 		now := srv.Now()
+		if s.Kind == "sample" || s.Kind == "select" {
+			ev := map[string]any{"ev": s.Kind, "run": run, "now": now, "db": strconv.Itoa(s.Db)}
+			var err error
+			oc, why := srv.guarded(func() {
+				if s.Kind == "sample" {
+					err = srv.DB.VerifRunSampler(s.Db)
+				} else {
+					err = srv.DB.SelectDB(s.Db)
+					if err == nil {
+						srv.EmbDB = s.Db
+					}
+				}
+			})
+			if oc != "" {
+				err = fmt.Errorf("%s: %s", oc, why)
+			}
+			if err != nil {
+				ev["err"] = err.Error()
+			}
+			if srv.Dead {
+				ev["st"] = []any{}
+				ev["dead"] = true
+				tr.Emit(ev)
+				break
+			}
+			st := srv.DB.VerifDump()
+			ev["st"] = projState(srv.Ep, st)
+			ev["mem"] = st.MemUsed
+			ev["vol"] = projVolatile(st)
+			tr.Emit(ev)
+			stats.Events++
+			continue
+		}
+		dbBefore := srv.EmbDB
 		r := srv.Exec(s.Cmd)
 		r = srv.relTimeReply(s.Cmd, r)
 		ev := map[string]any{
 			"ev": "cmd", "run": run, "now": now,
-			"db": strconv.Itoa(0), "cmd": toksJSON(s.Cmd), "r": r.JSON(),
+			"db": strconv.Itoa(dbBefore), "cmd": toksJSON(s.Cmd), "r": r.JSON(),
 		}
-		if r.T == "panic" {
+		if r.T == "panic" || r.T == "hang" {
 			ev["st"] = []any{}
 			ev["mem"] = 0
 			ev["why"] = r.Why
 		} else {
 			st := srv.DB.VerifDump()
-			ev["db"] = strconv.Itoa(st.Embedded.Database)
 			ev["st"] = projState(srv.Ep, st)
 			ev["mem"] = st.MemUsed
 			ev["vol"] = projVolatile(st)
@@ -107,7 +142,7 @@ func RunProgram(tr *Trace, run int, p Program, stats *SeqStats) error {
 		if len(stats.Samples) < 2 {
 			sample = append(sample, ev)
 		}
-		if r.T == "panic" {
+		if r.T == "panic" || r.T == "hang" {
 			break
 		}
 	}
@@ -118,6 +153,8 @@ func RunProgram(tr *Trace, run int, p Program, stats *SeqStats) error {
 	if len(stats.Samples) < 2 && len(sample) > 0 {
 		stats.Samples = append(stats.Samples, sample)
 	}
-	srv.DB.ShutDown()
+	if !srv.Dead {
+		srv.DB.ShutDown()
+	}
 	return nil
 }
